@@ -10,6 +10,7 @@ use crate::sched::{self, Ctx, Fault, InjectedAbort, Jump, Policy, Sched, SchedSt
 use crate::simdoc::{self, Personality};
 use jsonpath_rust::parser::model::JpQuery;
 use jsonpath_rust::query::queryable::Queryable;
+use jsonpath_rust::JsonPath;
 use serde::{Deserialize, Serialize};
 use serde_json::{json, Value};
 use std::cell::RefCell;
@@ -48,6 +49,10 @@ pub enum Op {
     /// through the handle, and the clone is dropped: the look / update part of a caller's history
     /// (the shared document itself is never written)
     RefMut { q: usize, d: usize },
+    /// the caller updates the document in slot d *in place* into the k-th of its planned contents
+    /// (possible only while nobody else holds the document or results borrowed from it; otherwise, and
+    /// for the stubbed store, this is `Swap`)
+    EditDoc { d: usize, k: usize },
 }
 
 impl Op {
@@ -64,6 +69,7 @@ impl Op {
             Op::CloneDoc { .. } => "CloneDoc",
             Op::EditQ { .. } => "EditQ",
             Op::RefMut { .. } => "RefMut",
+            Op::EditDoc { .. } => "EditDoc",
         }
     }
 }
@@ -121,7 +127,75 @@ pub struct Plan {
     /// (client, operation, name, value): the variable is set (or removed) just before that operation
     #[serde(default)]
     pub env_changes: Vec<(usize, usize, String, Option<String>)>,
+    /// (client, operation, mode): the results of that `query_with_path` / `js_path_process` call are
+    /// kept alive and only looked at (paths, nodes) later — mode 0: after the client's last operation,
+    /// on its own thread; 1: at once, on a fresh OS thread; 2: after the last operation, on a fresh
+    /// OS thread
+    #[serde(default)]
+    pub held: Vec<(usize, usize, u8)>,
 }
+
+enum HeldRes {
+    V(Vec<jsonpath_rust::query::QueryRef<'static, Value>>),
+    S(Vec<jsonpath_rust::query::QueryRef<'static, simdoc::SimDoc>>),
+    Err,
+}
+
+/// Results of an evaluation that the caller keeps; `doc` keeps what they borrow from alive.
+struct Held {
+    c: usize,
+    j: usize,
+    kind: &'static str,
+    q: usize,
+    mode: u8,
+    res: Option<HeldRes>,
+    doc: Arc<DocBox>,
+}
+
+fn digest_held(w: &Arc<World>, mut h: Held) {
+    let on_other_thread = h.mode != 0;
+    let res = h.res.take().unwrap();
+    let doc = h.doc.clone();
+    let look = move || -> String {
+        std::panic::catch_unwind(std::panic::AssertUnwindSafe(|| match res {
+            HeldRes::V(v) => obs::fmt_w(&doc.locs, v),
+            HeldRes::S(v) => obs::fmt_w(&doc.locs, v),
+            HeldRes::Err => "Err".to_string(),
+        }))
+        .unwrap_or_else(|_| "Panic".to_string())
+    };
+    let o = if on_other_thread {
+        let job = Shared(look);
+        std::thread::Builder::new()
+            .stack_size(16 << 20)
+            .spawn(move || {
+                let job = job;
+                (job.0)()
+            })
+            .expect("harness: spawn")
+            .join()
+            .unwrap_or_else(|_| "Panic".to_string())
+    } else {
+        look()
+    };
+    {
+        let mut p = w.probes.lock().unwrap();
+        p.results_looked_at_later += 1;
+        if on_other_thread {
+            p.results_looked_at_on_another_thread += 1;
+        }
+    }
+    w.recs.lock().unwrap().push(OpRec { c: h.c, j: h.j, kind: h.kind.into(), q: h.q, content: h.doc.content, digest: fnv(o.as_bytes()), status: "done".into(), obs: Some(o) });
+}
+
+fn digest_all_held(w: &Arc<World>, c: usize) {
+    let hs: Vec<Held> = std::mem::take(&mut *w.held[c].lock().unwrap());
+    for h in hs {
+        digest_held(w, h);
+    }
+}
+
+const HELD_MARK: &str = "\u{1}held";
 
 /// Payload of the caller's own panic under which `unwinding_ops` are executed.
 pub struct HarnessUnwind;
@@ -189,6 +263,12 @@ pub struct Probes {
     pub calls_while_unwinding: u64,
     #[serde(default)]
     pub env_changes: u64,
+    #[serde(default)]
+    pub docs_edited_in_place: u64,
+    #[serde(default)]
+    pub results_looked_at_later: u64,
+    #[serde(default)]
+    pub results_looked_at_on_another_thread: u64,
 }
 
 #[derive(Clone, Debug, Serialize, Deserialize)]
@@ -224,6 +304,8 @@ struct World {
     qslot_first_debug: Vec<Mutex<Option<String>>>,
     /// which query text each parsed-query slot stands for right now (EditQ changes it)
     qslot_cur: Vec<Mutex<usize>>,
+    /// per client: results kept for later
+    held: Vec<Mutex<Vec<Held>>>,
     recs: Mutex<Vec<OpRec>>,
     integrity: Mutex<Vec<String>>,
     probes: Mutex<Probes>,
@@ -259,8 +341,51 @@ fn get_pq(w: &World, s: usize) -> Arc<Shared<Result<JpQuery, ()>>> {
 }
 
 /// Returns (query index, content index, observation).
-fn exec_op(w: &World, op: &Op) -> (usize, usize, String) {
+fn exec_op(w: &World, op: &Op, hold: Option<(usize, usize, u8)>) -> (usize, usize, String) {
     let doc_of = |d: usize| -> Arc<DocBox> { w.slots[d].lock().unwrap().0.clone() };
+    if let (Some((c, j, mode)), Op::W { .. } | Op::E { .. }) = (hold, op) {
+        // evaluate, keep the results, look at them later
+        let (q, doc, res, kind) = match op {
+            Op::W { q, d } => {
+                let doc = doc_of(*d);
+                let qs = &w.plan.queries[*q];
+                let res = match &doc.inner {
+                    DocInner::V(v) => match crate::allocseam::in_library(|| v.query_with_path(qs)) {
+                        Ok(r) => HeldRes::V(unsafe { std::mem::transmute::<Vec<jsonpath_rust::query::QueryRef<'_, Value>>, Vec<jsonpath_rust::query::QueryRef<'static, Value>>>(r) }),
+                        Err(_) => HeldRes::Err,
+                    },
+                    DocInner::S(s) => match crate::allocseam::in_library(|| s.query_with_path(qs)) {
+                        Ok(r) => HeldRes::S(unsafe { std::mem::transmute::<Vec<jsonpath_rust::query::QueryRef<'_, simdoc::SimDoc>>, Vec<jsonpath_rust::query::QueryRef<'static, simdoc::SimDoc>>>(r) }),
+                        Err(_) => HeldRes::Err,
+                    },
+                };
+                (*q, doc, res, "W")
+            }
+            Op::E { s, d } => {
+                let doc = doc_of(*d);
+                let pq = get_pq(w, *s);
+                let cur_q = *w.qslot_cur[*s].lock().unwrap();
+                let res = match &pq.0 {
+                    Err(_) => HeldRes::Err,
+                    Ok(pq) => match &doc.inner {
+                        DocInner::V(v) => match crate::allocseam::in_library(|| jsonpath_rust::query::js_path_process(pq, v)) {
+                            Ok(r) => HeldRes::V(unsafe { std::mem::transmute::<Vec<jsonpath_rust::query::QueryRef<'_, Value>>, Vec<jsonpath_rust::query::QueryRef<'static, Value>>>(r) }),
+                            Err(_) => HeldRes::Err,
+                        },
+                        DocInner::S(sd) => match crate::allocseam::in_library(|| jsonpath_rust::query::js_path_process(pq, sd)) {
+                            Ok(r) => HeldRes::S(unsafe { std::mem::transmute::<Vec<jsonpath_rust::query::QueryRef<'_, simdoc::SimDoc>>, Vec<jsonpath_rust::query::QueryRef<'static, simdoc::SimDoc>>>(r) }),
+                            Err(_) => HeldRes::Err,
+                        },
+                    },
+                };
+                (cur_q, doc, res, "E")
+            }
+            _ => unreachable!(),
+        };
+        let content = doc.content;
+        w.held[c].lock().unwrap().push(Held { c, j, kind, q, mode, res: Some(res), doc });
+        return (q, content, HELD_MARK.to_string());
+    }
     match op {
         Op::Q { q, d } => {
             let doc = doc_of(*d);
@@ -381,6 +506,29 @@ fn exec_op(w: &World, op: &Op) -> (usize, usize, String) {
             *w.qslots[*t].lock().unwrap() = Some(Arc::new(Shared(cl)));
             *w.qslot_cur[*t].lock().unwrap() = cur_q;
             (cur_q, usize::MAX, o.to_string())
+        }
+        Op::EditDoc { d, k } => {
+            let content = w.plan.slots[*d][*k % w.plan.slots[*d].len()];
+            let mut edited = false;
+            {
+                let mut slot = w.slots[*d].lock().unwrap();
+                if let Some(outer) = Arc::get_mut(&mut *slot) {
+                    if let Some(doc) = Arc::get_mut(&mut outer.0) {
+                        if doc.content != usize::MAX && matches!(doc.inner, DocInner::V(_)) {
+                            let now = doc.to_json();
+                            if now != w.values[doc.content].to_string() {
+                                w.integrity.lock().unwrap().push(format!("document with content #{} changed: now {}", doc.content, now));
+                            }
+                            edited = doc.edit_in_place(&w.values[content], content);
+                        }
+                    }
+                }
+            }
+            if edited {
+                w.probes.lock().unwrap().docs_edited_in_place += 1;
+                return (usize::MAX, content, "-".into());
+            }
+            return exec_op(w, &Op::Swap { d: *d, k: *k }, None);
         }
         Op::Swap { d, k } => {
             let content = w.plan.slots[*d][*k % w.plan.slots[*d].len()];
@@ -525,11 +673,12 @@ fn run_client_op(w: &Arc<World>, c: usize, j: usize) {
         apply_env(name, value);
         w.probes.lock().unwrap().env_changes += 1;
     }
+    let hold = w.plan.held.iter().find(|(cc, jj, _)| *cc == c && *jj == j).map(|(_, _, m)| (c, j, *m));
     let body = move || {
         if depth_kib >= LOW_STACK {
-            until_remaining(depth_kib - LOW_STACK, stack_low(), &mut || exec_op(&w2, &opc))
+            until_remaining(depth_kib - LOW_STACK, stack_low(), &mut || exec_op(&w2, &opc, hold))
         } else {
-            at_depth(depth_kib, &mut || exec_op(&w2, &opc))
+            at_depth(depth_kib, &mut || exec_op(&w2, &opc, hold))
         }
     };
     let res = if w.plan.unwinding_ops.iter().any(|(cc, jj)| *cc == c && *jj == j) {
@@ -581,17 +730,30 @@ fn run_client_op(w: &Arc<World>, c: usize, j: usize) {
             p.first_op_kind = op.kind().to_string();
         }
     }
-    w.recs.lock().unwrap().push(OpRec {
-        c,
-        j,
-        kind: op.kind().into(),
-        q,
-        content,
-        digest: fnv(obs.as_bytes()),
-        status: status.into(),
-        // kept in both modes so that a full (replay) execution allocates exactly like a plain one
-        obs: Some(obs),
-    });
+    if obs == HELD_MARK {
+        // the record is written when the results are looked at; mode 1 does that right away
+        let now: Vec<Held> = {
+            let mut g = w.held[c].lock().unwrap();
+            let (now, later): (Vec<Held>, Vec<Held>) = std::mem::take(&mut *g).into_iter().partition(|h| h.mode == 1);
+            *g = later;
+            now
+        };
+        for h in now {
+            digest_held(w, h);
+        }
+    } else {
+        w.recs.lock().unwrap().push(OpRec {
+            c,
+            j,
+            kind: op.kind().into(),
+            q,
+            content,
+            digest: fnv(obs.as_bytes()),
+            status: status.into(),
+            // kept in both modes so that a full (replay) execution allocates exactly like a plain one
+            obs: Some(obs),
+        });
+    }
     sched::yield_point(sched::SITE_OP_END);
 }
 
@@ -639,6 +801,7 @@ pub fn execute(plan: Plan, full: bool) -> RunResult {
         qslots: plan.qslots.iter().map(|_| Mutex::new(None)).collect(),
         qslot_first_debug: plan.qslots.iter().map(|_| Mutex::new(None)).collect(),
         qslot_cur: plan.qslots.iter().map(|q| Mutex::new(*q)).collect(),
+        held: plan.clients.iter().map(|_| Mutex::new(vec![])).collect(),
         recs: Mutex::new(vec![]),
         integrity: Mutex::new(vec![]),
         probes: Mutex::new(Probes::default()),
@@ -669,6 +832,7 @@ pub fn execute(plan: Plan, full: bool) -> RunResult {
                 }
                 if exit_at.is_some() && j == n_ops - 1 {
                     // made from the destructor of EXIT_HOOK, after this closure has returned
+                    digest_all_held(&w, c);
                     sched::clear_ctx();
                     return;
                 }
@@ -695,6 +859,7 @@ pub fn execute(plan: Plan, full: bool) -> RunResult {
                     run_client_op(&w, c, j);
                 }
             }
+            digest_all_held(&w, c);
             sched::clear_ctx();
             sch.finish(c);
         }).expect("harness: spawn"));
@@ -875,7 +1040,7 @@ pub fn sweep_family(seed: u64, f: u64, out: &mut SweepOut) {
     }
     let mut names_in = vec![];
     gen::names_of(&doc, &mut names_in);
-    let g = QGen { names: &names_in, fancy: true, regex: f % 4 == 0, ext: true, safe_quotes: false, reenter: false };
+    let g = QGen { names: &names_in, fancy: true, regex: f % 4 == 0, ext: true, safe_quotes: false, reenter: false, unknown_fn: false };
     let repr: u8 = if f % 5 == 4 { 1 + (f % 8) as u8 } else { 0 };
     if sim_repr(repr) {
         simdoc::set_personality(Personality(repr - 1));
@@ -1234,6 +1399,36 @@ pub fn gen_corpus_with(seed: u64, n_fam: usize, q_per_fam: usize, adv: bool) -> 
             fam_queries.push(fq);
             continue;
         }
+        if adv && n_fam >= 8 && f == 5 {
+            // the big-node family: documents that differ in the size of one big node, so that an in-place
+            // update turns one into the other while the node keeps its address
+            // beyond the sizes at which an implementation might start to remember things about a node:
+            // an object of 300 members (and the same with only its first 200), a string of 40 KiB (and
+            // one of the same byte length but fewer characters)
+            let mk2 = |wide_n: usize, s: &str| -> String {
+                let mut wide = serde_json::Map::new();
+                for i in 0..wide_n {
+                    wide.insert(format!("k{:03}", i), json!(i as i64 % 5));
+                }
+                json!({"huge": [0, 1, 2, "s1"], "s": s, "t": "ab", "list": ["a", "b", 1], "u": {"s": s}, "wide": wide}).to_string()
+            };
+            let ascii40k = "abcdefgh".repeat(5120);
+            let multi40k = format!("{}{}", "é".repeat(10240), "abcdefgh".repeat(2560));
+            let mut fam = vec![];
+            for t in [mk2(300, "ab"), mk2(200, "ab"), mk2(20, &ascii40k), mk2(20, &multi40k)] {
+                contents.push(t);
+                fam.push(contents.len() - 1);
+            }
+            let mut fq = vec![];
+            for q in ["$[?length(@) > 250]", "$..[?length(@) >= 200]", "$[?length(@) > 30000]", "$.u[?length(@) == 40960]", "$[?length(@) == 300 || length(@) == 40960]", "$[?length(@) == 200]", "$.wide.k250", "$.wide[?@ == 3]", "$.s"] {
+                queries.push(q.to_string());
+                fq.push(queries.len() - 1);
+                q_other_family.push(f);
+            }
+            families.push(fam);
+            fam_queries.push(fq);
+            continue;
+        }
         if adv && n_fam >= 8 && f == 2 {
             // the huge family: arrays beyond the thresholds at which an implementation might switch
             // strategy (128, 512, 1024 elements) and strings of 32+ bytes whose byte length is equal
@@ -1326,7 +1521,7 @@ pub fn gen_corpus_with(seed: u64, n_fam: usize, q_per_fam: usize, adv: bool) -> 
         gen::names_of(&base, &mut names_in);
         let mut fq = vec![];
         let mut qrng = Rng::new(derive(seed, "c12query", f as u64));
-        let g = QGen { names: &names_in, fancy: true, regex: true, ext: true, safe_quotes: false, reenter: adv };
+        let g = QGen { names: &names_in, fancy: true, regex: true, ext: true, safe_quotes: false, reenter: adv, unknown_fn: true };
         let mut k = 0;
         while fq.len() < q_per_fam && k < q_per_fam * 4 {
             k += 1;
@@ -1452,7 +1647,7 @@ pub fn gen_plan_opt(c: &Corpus, run_seed: u64, allow_stress: bool) -> (Plan, Pla
     };
     for s in 0..n_slots {
         // a later slot often repeats an earlier family: equal or nearly equal documents live together
-        let mut f = if s > 0 && rng.chance(1, 2) { *rng.pick(&fams_used) } else if stress { *rng.pick(&[0usize, 4 % c.families.len(), 5 % c.families.len()]) } else { rng.below(c.families.len()) };
+        let mut f = if s > 0 && rng.chance(1, 2) { *rng.pick(&fams_used) } else if stress { *rng.pick(&[0usize, 4 % c.families.len(), 6 % c.families.len()]) } else { rng.below(c.families.len()) };
         // the deep family is expensive: take it one time in three of what a uniform draw would
         if (c.contents[c.families[f][0]].starts_with("#") || c.contents[c.families[f][0]].len() > 1500) && !fams_used.contains(&f) && rng.chance(2, 3) {
             f = rng.below(c.families.len());
@@ -1580,7 +1775,13 @@ pub fn gen_plan_opt(c: &Corpus, run_seed: u64, allow_stress: bool) -> (Plan, Pla
                     Op::CloneQ { s, t: *rng.pick(&same) }
                 }
                 6 => Op::Ref { q, d },
-                7 => Op::Swap { d, k: rng.below(slots[d].len()) },
+                7 => {
+                    if rng.chance(1, 2) {
+                        Op::EditDoc { d, k: rng.below(slots[d].len()) }
+                    } else {
+                        Op::Swap { d, k: rng.below(slots[d].len()) }
+                    }
+                }
                 9 => Op::EditQ { s, q: rng.below(n_normal_q) },
                 10 => Op::RefMut { q, d },
                 _ => Op::CloneDoc { d },
@@ -1640,7 +1841,7 @@ pub fn gen_plan_opt(c: &Corpus, run_seed: u64, allow_stress: bool) -> (Plan, Pla
         let n_f = 1 + rng.below(3);
         for _ in 0..n_f {
             let cl = rng.below(n_clients);
-            let candidates: Vec<usize> = clients[cl].iter().enumerate().filter(|(_, o)| !matches!(o, Op::Swap { .. } | Op::CloneDoc { .. } | Op::CloneQ { .. })).map(|(i, _)| i).collect();
+            let candidates: Vec<usize> = clients[cl].iter().enumerate().filter(|(_, o)| !matches!(o, Op::Swap { .. } | Op::EditDoc { .. } | Op::CloneDoc { .. } | Op::CloneQ { .. })).map(|(i, _)| i).collect();
             if candidates.is_empty() {
                 continue;
             }
@@ -1778,6 +1979,17 @@ pub fn gen_plan_opt(c: &Corpus, run_seed: u64, allow_stress: bool) -> (Plan, Pla
             }
         }
     }
+    // one run in eight keeps the results of a few evaluations and looks at them later / elsewhere
+    let mut held: Vec<(usize, usize, u8)> = vec![];
+    if !has_records && rng.chance(1, 8) {
+        for _ in 0..(1 + rng.below(4)) {
+            let cl = rng.below(n_clients);
+            let j = rng.below(clients[cl].len());
+            if matches!(clients[cl][j], Op::W { .. } | Op::E { .. }) && !held.iter().any(|(a, b, _)| *a == cl && *b == j) {
+                held.push((cl, j, rng.below(3) as u8));
+            }
+        }
+    }
     // one run in twelve: one to three calls are made while the caller is unwinding
     let mut unwinding_ops: Vec<(usize, usize)> = vec![];
     if !stress && rng.chance(1, 12) {
@@ -1853,6 +2065,7 @@ pub fn gen_plan_opt(c: &Corpus, run_seed: u64, allow_stress: bool) -> (Plan, Pla
         unwinding_ops,
         env,
         env_changes,
+        held,
     };
     // fillers select nothing whatever the document (their names occur nowhere), so they need no cold
     // process each; a sample of them is computed cold anyway, to check exactly that assumption
@@ -2022,6 +2235,7 @@ fn remove_op(plan: &Plan, c: usize, from: usize, to: usize) -> Plan {
     p.deep_stack = plan.deep_stack.iter().filter_map(|(cc, j, k)| if *cc != c { Some((*cc, *j, *k)) } else if *j >= from && *j < to { None } else if *j >= to { Some((*cc, j - (to - from), *k)) } else { Some((*cc, *j, *k)) }).collect();
     p.alloc_faults = plan.alloc_faults.iter().filter_map(|(cc, j, k)| if *cc != c { Some((*cc, *j, *k)) } else if *j >= from && *j < to { None } else if *j >= to { Some((*cc, j - (to - from), *k)) } else { Some((*cc, *j, *k)) }).collect();
     p.unwinding_ops = plan.unwinding_ops.iter().filter_map(|(cc, j)| if *cc != c { Some((*cc, *j)) } else if *j >= from && *j < to { None } else if *j >= to { Some((*cc, j - (to - from))) } else { Some((*cc, *j)) }).collect();
+    p.held = plan.held.iter().filter_map(|(cc, j, m)| if *cc != c { Some((*cc, *j, *m)) } else if *j >= from && *j < to { None } else if *j >= to { Some((*cc, j - (to - from), *m)) } else { Some((*cc, *j, *m)) }).collect();
     p.env_changes = plan.env_changes.iter().filter_map(|(cc, j, n, v)| if *cc != c { Some((*cc, *j, n.clone(), v.clone())) } else if *j >= from && *j < to { None } else if *j >= to { Some((*cc, j - (to - from), n.clone(), v.clone())) } else { Some((*cc, *j, n.clone(), v.clone())) }).collect();
     p.exit_calls = plan.exit_calls.iter().map(|(cc, r)| if *cc != c { (*cc, *r) } else if *r >= to { (*cc, r - (to - from)) } else if *r >= from { (*cc, from) } else { (*cc, *r) }).collect();
     // faults refer to op indices: shift or drop
@@ -2048,6 +2262,7 @@ fn remove_client(plan: &Plan, c: usize) -> Plan {
     p.clients.remove(c);
     p.alloc_faults = plan.alloc_faults.iter().filter(|(cc, _, _)| *cc != c).map(|(cc, j, k)| (if *cc > c { cc - 1 } else { *cc }, *j, *k)).collect();
     p.unwinding_ops = plan.unwinding_ops.iter().filter(|(cc, _)| *cc != c).map(|(cc, j)| (if *cc > c { cc - 1 } else { *cc }, *j)).collect();
+    p.held = plan.held.iter().filter(|(cc, _, _)| *cc != c).map(|(cc, j, m)| (if *cc > c { cc - 1 } else { *cc }, *j, *m)).collect();
     p.env_changes = plan.env_changes.iter().filter(|(cc, _, _, _)| *cc != c).map(|(cc, j, n, v)| (if *cc > c { cc - 1 } else { *cc }, *j, n.clone(), v.clone())).collect();
     p.exit_calls = plan.exit_calls.iter().filter(|(cc, _)| *cc != c).map(|(cc, r)| (if *cc > c { cc - 1 } else { *cc }, *r)).collect();
     p.deep_stack = plan.deep_stack.iter().filter(|(cc, _, _)| *cc != c).map(|(cc, j, k)| (if *cc > c { cc - 1 } else { *cc }, *j, *k)).collect();
@@ -2112,6 +2327,11 @@ pub fn minimise(plan: &Plan, table: &mut ColdTable, class: &str, kind: &str, bud
     if !cur.unwinding_ops.is_empty() {
         let mut cand = cur.clone();
         cand.unwinding_ops.clear();
+        try_cand(cand, &mut cur, &mut spent, table);
+    }
+    if !cur.held.is_empty() {
+        let mut cand = cur.clone();
+        cand.held.clear();
         try_cand(cand, &mut cur, &mut spent, table);
     }
     if !cur.env.is_empty() || !cur.env_changes.is_empty() {
@@ -2506,6 +2726,9 @@ pub fn drive(tier_name: &str, seed: u64, workers: usize) -> i32 {
             if !plan.env.is_empty() {
                 *probes_sum.entry("runs_with_a_varied_environment").or_insert(0) += 1;
             }
+            *probes_sum.entry("documents_updated_in_place_by_the_caller").or_insert(0) += r.probes.docs_edited_in_place;
+            *probes_sum.entry("result_sets_kept_and_looked_at_later").or_insert(0) += r.probes.results_looked_at_later;
+            *probes_sum.entry("result_sets_looked_at_on_another_thread").or_insert(0) += r.probes.results_looked_at_on_another_thread;
             if r.probes.clock_seam {
                 *probes_sum.entry("runs_with_the_clock_seam_preloaded").or_insert(0) += 1;
             }
